@@ -26,7 +26,7 @@ R = Run('tomof(maxline)->compile_string round trip: 13 value types + reference +
         'sized array/NULL x carriers (qualifier declaration, class property default, qualifier value on class/'
         'property/method/parameter, instance property); all 8 single scopes + sampled subsets (thorough: all 255) x '
         '27 flavor combinations; strings a^k+special+b^m with k swept over the first and second fold position for 16 '
-        'special contents x 10 carriers x maxline in {40,41,80,120} (thorough: 15 values 40..120), blank separated '
+        'special contents x 10 carriers x maxline in {40,41,80,120} (thorough: 11 values 40..120), blank separated '
         'words (seeded), total lengths 0..200; hand written literals: all sequences <= 2 (thorough <= 3) over 24 '
         'DSP0004 escape tokens split into 1..2 adjacent literals')
 
@@ -231,7 +231,7 @@ class Norm:
         self.char16 = char16
 
     def orig_str(self, s, typ):
-        if self.apos:
+        if self.apos and typ != 'char16':
             return s.replace("'", '')
         return s
 
@@ -241,8 +241,6 @@ class Norm:
                 s = ref_decode(s[1:-1])
             except RefErr:
                 return s
-        if self.apos and isinstance(s, str):
-            return s.replace("'", '')
         return s
 
 
@@ -253,7 +251,7 @@ def flav(x):
 def d_scalar(o, g, typ, path, out, nm):
     if o is None or g is None:
         if not (o is None and g is None):
-            out.append((path, 'value-null-mismatch', o, g))
+            out.append((path, 'null-mismatch', o, g))
         return
     if isinstance(o, CIMInstance):
         if not isinstance(g, CIMInstance):
@@ -263,43 +261,43 @@ def d_scalar(o, g, typ, path, out, nm):
         return
     if typ in ('string', 'char16'):
         if not isinstance(g, str) or isinstance(g, (CIMDateTime,)):
-            out.append((path, typ + '-value-pytype', o, g))
+            out.append((path, typ + '-pytype', o, g))
         elif nm.got_str(g, typ) != nm.orig_str(o, typ):
-            out.append((path, typ + '-value-differs', o, g))
+            out.append((path, typ + '-differs', o, g))
     elif typ == 'boolean':
         if g is not o:
-            out.append((path, 'boolean-value-differs', o, g))
+            out.append((path, 'boolean-differs', o, g))
     elif typ in INT_TYPES:
         if type(g) is not INT_TYPES[typ]:
-            out.append((path, 'integer-value-pytype', o, g))
+            out.append((path, 'integer-pytype', o, g))
         elif int(g) != int(o):
-            out.append((path, 'integer-value-differs', o, g))
+            out.append((path, 'integer-differs', o, g))
     elif typ in REAL_TYPES:
         if type(g) is not REAL_TYPES[typ]:
-            out.append((path, 'real-value-pytype', o, g))
+            out.append((path, 'real-pytype', o, g))
         else:
             fo, fg = float(o), float(g)
             same = (math.isnan(fo) and math.isnan(fg)) or (fo == fg and math.copysign(1, fo) == math.copysign(1, fg))
             if not same:
-                out.append((path, 'real-value-differs', o, g))
+                out.append((path, 'real-differs', o, g))
     elif typ == 'datetime':
         if not isinstance(g, CIMDateTime):
-            out.append((path, 'datetime-value-pytype', o, g))
+            out.append((path, 'datetime-pytype', o, g))
         elif (o.is_interval, o.datetime, o.timedelta, o.minutes_from_utc, o.precision) != \
                 (g.is_interval, g.datetime, g.timedelta, g.minutes_from_utc, g.precision):
-            out.append((path, 'datetime-value-differs', o, g))
+            out.append((path, 'datetime-differs', o, g))
     elif typ == 'reference':
         if not isinstance(g, CIMInstanceName):
-            out.append((path, 'reference-value-pytype', o, g))
+            out.append((path, 'reference-pytype', o, g))
             return
         if o.classname.lower() != g.classname.lower() or (o.namespace or None) != (g.namespace or None) or \
                 (o.host or '').lower() != (g.host or '').lower():
-            out.append((path, 'reference-value-differs', o, g))
+            out.append((path, 'reference-differs', o, g))
             return
         ok = dict((k.lower(), v) for k, v in o.keybindings.items())
         gk = dict((k.lower(), v) for k, v in g.keybindings.items())
         if sorted(ok) != sorted(gk):
-            out.append((path, 'reference-value-keys-differ', o, g))
+            out.append((path, 'reference-keys-differ', o, g))
             return
         for k, ov in ok.items():
             gv = gk[k]
@@ -310,7 +308,7 @@ def d_scalar(o, g, typ, path, out, nm):
             else:
                 same = not isinstance(gv, str) and ov == gv
             if not same:
-                out.append((path, 'reference-value-key-differs', o, g))
+                out.append((path, 'reference-key-differs', o, g))
                 return
     else:
         raise AssertionError(typ)
@@ -319,9 +317,9 @@ def d_scalar(o, g, typ, path, out, nm):
 def d_value(o, g, typ, path, out, nm):
     if isinstance(o, list) or isinstance(g, list):
         if not (isinstance(o, list) and isinstance(g, list)):
-            out.append((path, 'value-array-shape', o, g))
+            out.append((path, 'array-shape-differs', o, g))
         elif len(o) != len(g):
-            out.append((path, 'value-array-length', o, g))
+            out.append((path, 'array-length-differs', o, g))
         else:
             for i, (a, b) in enumerate(zip(o, g)):
                 d_scalar(a, b, typ, path, out, nm)
@@ -349,19 +347,19 @@ def d_named(od, gd, path, what, out, fn, nm):
 def d_qualifier(o, g, path, out, nm):
     d_attr(o, g, 'name', path, out)
     d_attr(o, g, 'type', path, out)
-    d_value(o.value, g.value, o.type, path + '/qualifier-value', out, nm)
+    d_value(o.value, g.value, o.type, path + '/value', out, nm)
     for f in ('overridable', 'tosubclass'):
         if flav(getattr(o, f)) is not flav(getattr(g, f)):
-            out.append((path, 'qualifier-flavor-' + f + '-differs', getattr(o, f), getattr(g, f)))
+            out.append((path, 'flavor-' + f + '-differs', getattr(o, f), getattr(g, f)))
     for f in ('translatable', 'toinstance'):  # no MOF keyword for the negative: None and False are the same thing
         if bool(getattr(o, f)) is not bool(getattr(g, f)):
-            out.append((path, 'qualifier-flavor-' + f + '-differs', getattr(o, f), getattr(g, f)))
+            out.append((path, 'flavor-' + f + '-differs', getattr(o, f), getattr(g, f)))
 
 
 def d_property(o, g, path, out, nm):
     for a in ('name', 'type', 'reference_class', 'is_array', 'array_size'):
         d_attr(o, g, a, path, out)
-    d_value(o.value, g.value, o.type, path + '/property-value', out, nm)
+    d_value(o.value, g.value, o.type, path + '/value', out, nm)
     d_named(o.qualifiers, g.qualifiers, path, 'qualifier', out, d_qualifier, nm)
 
 
@@ -392,14 +390,14 @@ def d_instance(o, g, path, out, nm):
     def prop(po, pg, p, out_, nm_):
         for a in ('name', 'type', 'is_array'):
             d_attr(po, pg, a, p, out_)
-        d_value(po.value, pg.value, po.type, p + '/property-value', out_, nm_)
+        d_value(po.value, pg.value, po.type, p + '/value', out_, nm_)
     d_named(o.properties, g.properties, path, 'property', out, prop, nm)
 
 
 def d_qualdecl(o, g, path, out, nm):
     for a in ('name', 'type', 'is_array', 'array_size'):
         d_attr(o, g, a, path, out)
-    d_value(o.value, g.value, o.type, path + '/default-value', out, nm)
+    d_value(o.value, g.value, o.type, path + '/default', out, nm)
     for s in SCOPES:
         if bool(o.scopes.get(s, False)) is not bool(g.scopes.get(s, False)):
             out.append((path, 'scope-differs', dict(o.scopes), dict(g.scopes)))
@@ -543,24 +541,24 @@ def roundtrip(kind, obj, deps, maxline, fetch, feats=(), **desc):
     rest = []
     DIFF[kind](obj, got, kind, rest, Norm(apos=True, char16=True))
     # explained by a split inside an escape sequence?
-    if rest and fold_inside_escape(text) and all(d[1] in ('string-value-differs', 'reference-value-key-differs')
+    if rest and fold_inside_escape(text) and all(d[1] in ('string-differs', 'reference-key-differs')
                                                  for d in rest):
         report('known:fold-splits-escape-sequence', diff=short(rest[0]), **desc)
         rest = []
     if rest and 'embedded-apos' in feats:
         how, vals = apostrophe_model(text)
-        rest2 = [d for d in rest if not (how == 'values' and d[1] == 'string-value-differs' and '/emb' in d[0] and
+        rest2 = [d for d in rest if not (how == 'values' and d[1] == 'string-differs' and '/emb' in d[0] and
                                          d[3] in vals)]
         if len(rest2) < len(rest):
             report('known:escaped-apostrophe-dropped', where='embedded instance', diff=short(rest[0]), **desc)
             rest = rest2
     if rest and 'null-qualifier' in feats:
-        rest2 = [d for d in rest if not (d[1] == 'value-null-mismatch' and d[2] is None and 'qualifier-value' in d[0])]
+        rest2 = [d for d in rest if not (d[1] == 'null-mismatch' and d[2] is None and d[0].endswith('/value') and '/qualifier:' in d[0])]
         if len(rest2) < len(rest):
             report('known:qualifier-null-value-replaced-by-default', diff=short(rest[0]), **desc)
             rest = rest2
     if rest and 'qualifier-flavors' in feats:
-        rest2 = [d for d in rest if not (d[1].startswith('qualifier-flavor-') and '/qualifier:' in d[0])]
+        rest2 = [d for d in rest if not (d[1].startswith('flavor-') and '/qualifier:' in d[0])]
         if len(rest2) < len(rest):
             report('known:qualifier-value-flavors-not-emitted', diff=short(rest[0]), **desc)
             rest = rest2
@@ -828,7 +826,7 @@ def fold_sweep(maxlines, quick, rnd):
                     ks = set(k for k in ks if k < 4 or (ml - 16 <= k <= ml) or (2 * ml - 26 <= k <= 2 * ml - 6)
                              or k % 5 == 0)
                 for k in sorted(ks):
-                    for m in ((0, 9) if quick else (0, 1, 9, ml)):
+                    for m in ((0, 9) if quick else (0, 1, 9)):
                         if k + len(sp) + m > 200:
                             continue
                         s = 'a' * k + sp + 'b' * m
@@ -1089,7 +1087,7 @@ def main():
         ml_val = [40, 80, 120]
         ml_struct = [40, 57, 80, 120]
     else:
-        ml_fold = [40, 41, 42, 43, 50, 59, 60, 64, 72, 79, 80, 81, 100, 119, 120]
+        ml_fold = [40, 41, 42, 43, 59, 60, 79, 80, 81, 119, 120]
         ml_val = [40, 41, 47, 64, 80, 99, 120, 1000]
         ml_struct = list(range(40, 121, 4)) + [200]
     value_matrix(ml_val, quick)
